@@ -26,12 +26,15 @@ theorem parseTPS_total (basis : Array W) (bytes : Bytes) (site : String) :
     TPS.parseTPS basis bytes ≠ .error (.panic site) :=
   TPS.parseTPS_noPanic basis bytes site
 
-/-- Not proved here: that `ParseTPS` never *hangs*.  In the model the only unbounded loop is
-`bitboard.Flood` inside `analyze()` (called at the end of `FromSquares`), modelled with fuel 66 and a
-`.hang` outcome when the fuel runs out; that the fuel suffices is the shared lemma about `Tak.flood`
-(each round either stops or adds a bit to a 64-bit word), which belongs to the C02 package. -/
-def parseTPS_terminates_statement : Prop :=
-  ∀ (basis : Array W) (bytes : Bytes) (site : String), TPS.parseTPS basis bytes ≠ .error (.hang site)
+/-- `ParseTPS` never *hangs* either.  In the model the only unbounded Go loop is `bitboard.Flood` inside
+`analyze()` (called at the end of `FromSquares`), modelled with fuel and a `.hang` outcome when the fuel runs
+out.  That the fuel always suffices (`hA`) is proved without assumptions in the C02 package as
+`Roads.analyze_ne_none`; it is a hypothesis here so that the packages stay independent and is to be
+discharged with that theorem after the merge.  (`ParseMove` and `ParseServer` contain no unbounded loop:
+their models are structurally recursive over the input bytes.) -/
+theorem parseTPS_terminates (hA : ∀ p : Pos, p.analyze ≠ none) (basis : Array W) (bytes : Bytes) (site : String) :
+    TPS.parseTPS basis bytes ≠ .error (.hang site) :=
+  TPS.parseTPS_noHang basis bytes hA site
 
 /-! Non-trivial instances: the three outcome classes are all inhabited, and the two inputs that crash
 the pinned tree are ordinary errors of the model of the repaired tree. -/
